@@ -175,6 +175,46 @@ class Report:
     def failed(self):
         return [o for o in self.obl if o["status"] == "failed"]
 
+    # -- compact obligation records: the evidence file must stay small (a few hundred kB), so obligations are summarised per job
+    #    (id without its last two components) and listed individually only when they are few or not discharged
+    def _groups(self):
+        g = {}
+        for o in self.obl:
+            parts = o["id"].split(".")
+            key = ".".join(parts[:-2]) if (o["layer"] == "L1" and len(parts) > 4) else (".".join(parts[:3]) if len(parts) > 3 else o["id"])
+            e = g.setdefault(key, dict(group=key, function=o["function"], layer=o["layer"], backends=[], obligations=0, discharged=0, failed=0,
+                                       undecided=0, bounded=0, seconds=0.0))
+            e["obligations"] += 1
+            e[o["status"]] = e.get(o["status"], 0) + 1
+            if o["bounded"]:
+                e["bounded"] += 1
+            if o["backend"] not in e["backends"] and len(e["backends"]) < 6:
+                e["backends"].append(o["backend"])
+            e["seconds"] = round(e["seconds"] + o["seconds"], 3)
+        out = sorted(g.values(), key=lambda e: e["group"])
+        if len(out) > 1500:      # still too many jobs: merge by the first two components
+            g2 = {}
+            for e in out:
+                k2 = ".".join(e["group"].split(".")[:2])
+                f = g2.setdefault(k2, dict(group=k2 + ".*", function="(several)", layer=e["layer"], backends=[], obligations=0, discharged=0, failed=0,
+                                           undecided=0, bounded=0, seconds=0.0))
+                for k in ("obligations", "discharged", "failed", "undecided", "bounded"):
+                    f[k] += e[k]
+                f["seconds"] = round(f["seconds"] + e["seconds"], 3)
+                for b in e["backends"]:
+                    if b not in f["backends"] and len(f["backends"]) < 6:
+                        f["backends"].append(b)
+            out = sorted(g2.values(), key=lambda e: e["group"])
+        return out
+
+    def _log(self):
+        rows = [[o["id"], o["status"], o["seconds"], o["backend"]] for o in self.obl]
+        if len(rows) <= 1200:
+            return rows
+        bad = [r for r in rows if r[1] != "discharged"][:400]
+        step = max(1, len(rows) // 600)
+        return bad + rows[::step][:600]
+
     def finish(self, explanation=""):
         wall = time.time() - self.t0
         proved = [o for o in self.obl if not o["bounded"]]
@@ -239,7 +279,8 @@ class Report:
             vacuity_checks=self.vacuity[:40],
             solver_seconds=round(self.solver_seconds, 2),
             known_findings_matched=[dict(obligation=a, finding=b) for a, b in self.known_hit],
-            obligation_log=[[o["id"], o["status"], o["seconds"], o["backend"]] for o in self.obl],
+            obligation_groups=self._groups(),
+            obligation_log=self._log(),
             repo_head=repo_head(),
             explanation=explanation or "contract obligations generated from /repo's working tree on this run; "
                                         "every obligation is a CBMC property result (DFCC contract instrumentation) or an SMT query; see DESIGN.md",
